@@ -17,6 +17,9 @@ Proof. vm_compute. reflexivity. Qed.
 (* writeResponse clears res.Close for a 101 *)
 Lemma ob_upgrade_clears_close : upgrade_clears_close = true.
 Proof. vm_compute. reflexivity. Qed.
+(* exactly tunnel and handleMITM defer the completion report (they report it themselves) *)
+Lemma ob_deferred_trace_callers : deferred_trace_callers = [b "handleMITM"; b "tunnel"].
+Proof. vm_compute. reflexivity. Qed.
 Lemma ob_flags : table_flags = good_flags.
 Proof. unfold table_flags. rewrite ob_trace_skip_only_when_deferred, ob_conn_err_rebinds_request, ob_upgrade_clears_close. reflexivity. Qed.
 (* forwarder's trace hooks skip events without a request / response *)
